@@ -436,25 +436,16 @@ static void case_reject(Rng& rng, uint64_t index)
 		unsigned n = 1 + (unsigned) ((index / 3) % 7);
 		A		   = gen_integer_singular(rng, n, (int) (index / 21));
 		what	   = "integer-singular";
-		// one row an exact copy (or an exact power-of-two multiple) of another, entries not integers: singular by construction; whatever the rounded
-		// cofactor determinant says, the elimination meets an exactly vanishing row (seeded change C05-r7m3 multiplied by a hoisted reciprocal of the
-		// pivot instead of dividing, after which identical rows no longer cancel exactly)
-		if(n >= 3 && index % 2 == 1)
-		{
-			for(auto& x : A.a)
-				x = rng.normal() * (rng.coin(0.3) ? rng.loguni(1e-3, 1e3) : 1.0);
-			unsigned r1 = rng.below(n), r2 = (r1 + 1 + rng.below(n - 1)) % n;
-			double f	= rng.coin(0.5) ? 1.0 : std::ldexp(rng.sign(), rng.irange(-3, 3));
-			for(unsigned j = 0; j < n; j++)
-				A(r2, j) = f * A(r1, j);
-			what = "real-valued-with-a-repeated-row";
-		}
+		// (Real-valued matrices with a repeated row were tried here after seeded change C05-r7m3 and withdrawn: that the unchanged elimination meets an
+		// exactly vanishing row relies on x/x == 1, which a textbook reformulation - normalise the pivot row first, harmless change C05-b1 - does not
+		// have.  Exact singularity of non-integer matrices is not something a floating-point elimination can promise; the rejected side stays with
+		// matrices whose arithmetic is exact.)
 	}
 	set_params(mat_json(A, what.c_str()));
 	hash_matrix(A);
 	mark_nontrivial();
 	int which = (int) (index % 2);	 // 0 Inverse, 1 Determinant (non-square only) / Inverse
-	if(!nonsquare && what == "integer-singular")
+	if(!nonsquare)
 	{
 		// exact integer arithmetic: the determinant is exactly 0 and Invertible() is false
 		Matrix M   = to_lib(A);
@@ -463,8 +454,6 @@ static void case_reject(Rng& rng, uint64_t index)
 		require("integer-singular-not-invertible", !M.Invertible(), [&] { return mat_json(A, what.c_str()); });
 		which = 0;
 	}
-	if(!nonsquare)
-		which = 0;
 	Outcome o = run_isolated([&](const std::function<void(const std::string&)>& send) {
 		Matrix M = to_lib(A);
 		if(which == 0)
